@@ -83,7 +83,7 @@ H.append({
 # ---------------------------------------------------------------- fetching rules (extender seam)
 H.append({
     "name": "h_ext", "src": "h_ext.c", "env": ENV + ["ext_seam"], "tus": RULE_TUS + ["types", "tlv"], "extra_src": ["x_net_real.c"],
-    "unwind": 6, "unwindset": ["KSI_TLV_free.0:3"], "timeout": 300, "mem_gb": 8, "object_bits": 12,
+    "unwind": 6, "unwindset": ["KSI_TLV_free:3"], "timeout": 300, "mem_gb": 8, "object_bits": 12,
     "restrict_fp": ["KSI_List_free.function_pointer_call.1/KSI_HashChainLink_free"], "cbmc_flags": ["--slice-formula"],
     "functions": ["receiveCalendarHashChain", "KSI_VerificationRule_ExtendSignatureCalendarChainInputHashToHead", "KSI_VerificationRule_ExtendSignatureCalendarChainInputHashToSamePubTime",
                   "KSI_VerificationRule_PublicationsFileExtendToPublication", "KSI_VerificationRule_UserProvidedPublicationExtendToPublication",
@@ -164,7 +164,7 @@ H.append({
 key_common = dict(SB_HAS_CAL=1, SB_HAS_AUTH=1)
 H.append({
     "name": "h_key", "src": "h_key.c", "env": ENV + ["ext_seam", "pki_model"], "tus": RULE_TUS + ["types", "tlv", "fast_tlv"],
-    "unwind": 6, "unwindset": ["KSI_TLV_free.0:4", "KSI_TLV_writeBytes.0:40", "serializeTlv.0:4"], "timeout": 300, "mem_gb": 8, "object_bits": 12,
+    "unwind": 6, "unwindset": ["KSI_TLV_free:4", "KSI_TLV_writeBytes.0:40", "serializeTlv:4"], "timeout": 300, "mem_gb": 8, "object_bits": 12,
     "functions": ["KSI_VerificationRule_CalendarHashChainPresenceVerification", "KSI_VerificationRule_CalendarAuthenticationRecordPresenceVerification",
                   "KSI_VerificationRule_CertificateExistence", "KSI_VerificationRule_CertificateValidity", "KSI_VerificationRule_CalendarAuthenticationRecordSignatureVerification",
                   "KSI_PublicationsFile_getPKICertificateById", "KSI_OctetString_equals", "KSI_TLV_serialize", "initPublicationsFile"],
